@@ -7,7 +7,7 @@ CONSTANTS
   NewObjs <- MCNewObjs
   MaxDepth = 10
   Starts <- StartsThorough
-  Allowed = {"delete.array.dup", "delete.streamdict", "delete.trailer", "resources.shadow", "contents.refToArray"}
+  Allowed = {}
   Emit = TRUE
   EmitMod = 1
   EmitModV = 1
